@@ -24,7 +24,8 @@ Oracle (from the property statement):
 case_id: `clone/<check>/<node type>` for fidelity (clone depth in the key),
 `<depth>/<sharing check>/<type>`, `alias:<alias>/<check>/<type>` for a check
 that fails for an alias but holds for the clone of the same depth,
-`interference/<depth>/<type of mutated node>.<mutation family>`.
+`interference/<depth>/<type of mutated node>.<mutation family>/<what changed
+on the other side>`.
 """
 import copy
 import itertools
@@ -149,7 +150,7 @@ def subjects(tier):
   add('hyper/oneof', "o = pg.oneof([pg.Dict(a=1), 2, [3]])")
   add('hyper/nested', "o = pg.Dict(a=pg.oneof([pg.oneof([1, 2]), pg.Dict(x=pg.floatv(0.0, 1.0))]), b=pg.manyof(2, [1, 2, pg.Dict(y=3)]))")
   add('ref/partial-flag', "o = pg.Dict(r=pg.Ref(SHARED, allow_partial=True), l=[pg.Ref([1], allow_partial=True)])")
-  add('hyper/partial', "o = pg.oneof([TY.partial(), 1], allow_partial=True)")
+  add('hyper/partial', "o = pg.hyper.OneOf(candidates=[TY.partial(), 1], allow_partial=True)")
   # The same values sealed as a whole after construction.
   for label, src in list(S):
     if label.split('/')[0] in ('object', 'ref', 'functor', 'dna', 'hyper') and 'sealed' not in label:
@@ -379,6 +380,26 @@ def _diff(a, b):
   return ''
 
 
+_FIELDS = ('keys', 'class', 'identity', 'sym_parent', 'sym_path', 'is_sealed',
+           'allow_partial', 'accessor_writable', 'value_spec', 'spec')
+_ARGS = ('specified_args', 'non_default_args', 'default_args')
+
+
+def _diff_fields(a, b):
+  """Names what differs in the first differing snapshot entry."""
+  for x, y in zip(a, b):
+    if x == y:
+      continue
+    if len(x) != len(y) or x[0] != y[0]:
+      return ['structure']
+    if len(x) == 3:
+      return ['ref-target' if x[1] == 'ref' else 'leaf-value']
+    out = [name for i, name in enumerate(_FIELDS) if x[i] != y[i]]
+    out += [name for i, name in enumerate(_ARGS) if x[10][i] != y[10][i]]
+    return out or ['other']
+  return ['structure']
+
+
 def _wit(subject_src, lines, snap=False):
   body = subject_src + '\n' + '\n'.join(lines) + '\n'
   return prelude(body, snap) + body
@@ -399,14 +420,16 @@ def drv_clone_fidelity(tier, seed):
             f'{len(ALIASES)} aliases (+ .copy()); every node pair compared')
   for label, src in subs:
     base_fail = {}
+    base_raised = set()
     for depth, expr in BASES:
+      env = build(src)   # a subject that cannot be built is a harness error
+      before = _snap(_root_of(env))
       try:
-        env = build(src)
-        before = _snap(_root_of(env))
         _exec(f'c = {expr}', env)
       except Exception as e:  # pylint: disable=broad-except
-        rec.case(f'clone/raises/{label.split("/")[0]}', (label, depth), False,
-                 f'{expr} raised {type(e).__name__}: {e}',
+        base_raised.add(depth)
+        rec.case(f'clone/raises/{_tname(env["o"])}', (label, depth), False,
+                 f'[{label}] {expr} raised {type(e).__name__}: {e}',
                  _wit(src, [f'c = {expr}']))
         continue
       o, c = env['o'], env['c']
@@ -431,13 +454,15 @@ def drv_clone_fidelity(tier, seed):
         rec.case(f'clone/{depth}', (label, depth), True)
     for alias, depth, expr in ALIASES + [COPY_METHOD]:
       is_copy = alias == '.copy()'
+      env = build(src)
+      if is_copy and not isinstance(env['o'], (pg.Dict, pg.List)):
+        continue
+      before = _snap(_root_of(env))
       try:
-        env = build(src)
-        if is_copy and not isinstance(env['o'], (pg.Dict, pg.List)):
-          continue
-        before = _snap(_root_of(env))
         _exec(f'c = {expr}', env)
       except Exception as e:  # pylint: disable=broad-except
+        if depth in base_raised:
+          continue
         rec.case(f'alias:{alias}/raises', (label, depth), False,
                  f'[{label}] {expr} raised {type(e).__name__}: {e}', _wit(src, [f'c = {expr}']))
         continue
@@ -619,7 +644,9 @@ def drv_clone_independence(tier, seed):
           exc = _apply(env, stmt)
           after = _snap(oroot)
           ok = before == after
-          rec.case(f'interference/{depth}/{t}.{fam}' if not ok else f'independence/{depth}',
+          for cid in ([f'independence/{depth}'] if ok else
+                      [f'interference/{depth}/{t}.{fam}/{f}' for f in _diff_fields(before, after)]):
+            rec.case(cid,
                    (label, expr, side, mlabel, stmt), ok,
                    f'[{label}] c = {expr}; `{stmt}`'
                    + (f' (raised {type(exc).__name__})' if exc else '')
@@ -648,7 +675,9 @@ def drv_clone_independence(tier, seed):
           wl = lines + [f'b = _snap({oname})',
                         (f'try:\n  {stmt}\nexcept Exception: pass' if exc else stmt),
                         f'assert _snap({oname}) == b']
-          rec.case(f'interference/{depth}/{t}.{fam}' if not ok else f'independence-history/{depth}',
+          for cid in ([f'independence-history/{depth}'] if ok else
+                      [f'interference/{depth}/{t}.{fam}/{f}' for f in _diff_fields(before, after)]):
+            rec.case(cid,
                    (label, expr, tuple(lines), stmt), ok,
                    f'[{label}] after {lines}: `{stmt}` changed the {"original" if other == "o" else "clone"}: '
                    + _diff(before, after),
